@@ -1,6 +1,8 @@
 (* C08 — UltraGraph behaves as a directed-graph store under any operation sequence. *)
 From Coq Require Import List Arith NArith ZArith Bool.
 From DC Require Import Common.AList Graph.UltraGraph Graph.Spec Graph.Refine.
+From DC Require Graph.BulkAdd.
+Import ListNotations.
 Import ListNotations.
 
 (* Every operation, from every reachable state: the representation invariant is kept (petgraph id
@@ -55,6 +57,18 @@ Theorem C08_edges_exactly : forall s o r s' x y,
   end.
 Proof. exact spec_edges_after. Qed.
 
+(* bulk insertion into a fresh graph, for ANY number of nodes: the n-th add returns index n-1, exactly the indices below n exist
+   afterwards and each returns the value stored under it, the size is n.  This closed form is the oracle of the large histories
+   of the check (10^5 nodes: index width, growth of the storage), which the association-list model cannot evaluate *)
+Theorem C08_bulk_insertion_closed_form : forall vs,
+  let '(ks, g) := BulkAdd.add_many empty_graph vs in
+  ks = seq 0 (length vs) /\
+  (forall i, i < length vs -> contains_node g i = true /\ get_node g i = Some (nth i vs 0%Z)) /\
+  (forall i, length vs <= i -> contains_node g i = false /\ get_node g i = None) /\
+  size g = length vs /\ is_empty g = (length vs =? 0).
+Proof. exact BulkAdd.bulk_add_fresh. Qed.
+
+Print Assumptions C08_bulk_insertion_closed_form.
 Print Assumptions C08_step_refines.
 Print Assumptions C08_observations_are_the_specs.
 Print Assumptions C08_every_history.
